@@ -21,6 +21,8 @@ try:
     print('verified=%d errors=%d wall=%.1fs ok=%s fns=%d clauses=%d' % (r.verified, r.errors, r.wall_s, r.ok, len(g.fns), len(g.clauses)))
     for (k_, p_, why_) in g.lost:
         print('LOST: %s %s: %s' % (k_, ' '.join(p_), why_))
+    for sf in r.soft:
+        print('SOFT: ' + sf['reason'])
     for u_ in r.undecided:
         print('UNDECIDED:', u_[:600])
     for f in r.failures:
